@@ -84,8 +84,14 @@ def c05(run, tier):
     run.rule = ("family of propositional programs with every choice of #[coinductive] traits (cyclic requirements included), histories of 2 goals "
                 "on one solver; invariant ResultsCorrect against the greatest-fixed-point meaning; replay on SLG/recursive(cache on/off); "
                 "the all-coinductive one-clause-per-atom members are also rendered as one #[auto] trait over (mutually) recursive structs with "
-                "negative impls and replayed; non-trivial = program has a clause")
-    run.assumptions = GROUND_ASSUME
+                "negative impls and replayed; first-order level (AutoMC.tla): sampled programs with two auto traits over structs / enums / generic "
+                "ADTs / phantom data / built-in constructors with fields, explicit positive, negative, generic and blanket impls with where-clauses, "
+                "12 goals each (closed types and hypothetical goals under forall) asked as one history per solver; TLC computes the "
+                "greatest-fixed-point meaning (invariants ExplicitDecides, FixedPointEquation, Independent) and every answer of SLG / recursive "
+                "(cache on, off) must equal it; non-trivial = program has a clause")
+    run.assumptions = GROUND_ASSUME + ["first-order family: field types of a generic ADT and where-clauses of impls never mention a larger type than "
+                                       "the one being defined (finite reachability), so the greatest fixed point over the reachable atoms is exact; "
+                                       "closures, coroutines, dyn and opaque types are not in the family"]
     f, byid = fam(run, tier, (2, 3, 2, False, True), 350, (3, 3, 1, False, True), 6000)
     recs = gc.model_check(run, f, gc.goals_atoms, {"MaxOps": 2, "Kinds": ["solve"], "Invariants": ["ResultsCorrect", "DeviationShape", "EnginePanicShape", "BoundedWork"]}, "C05")
     smoke_histories(run, "C05s")
@@ -118,6 +124,8 @@ def c05(run, tier):
                         "impl": [y.get("class") for y in o["results"]]}, cap=6)
         if traces: gc.validate_traces(run, traces, "auto")
     run.extra["auto_trait_programs"] = len(autos)
+    import props_auto
+    props_auto.auto_first_order(run, tier)
 
 # ------------------------------------------------------------------------------------------------
 @prop("C09")
